@@ -13,6 +13,7 @@ import DefraModel.Proofs.CrdtFolds
 import DefraModel.Proofs.CrdtHeads
 import DefraModel.Proofs.CrdtMergeDocRefine
 import DefraModel.Props.C02
+import DefraModel.Proofs.CrdtConverge
 namespace Defra.Props.C01
 open Defra Defra.Crdt
 
@@ -76,5 +77,39 @@ theorem same_merged_set_after_same_delivery (cx : Ctx) (hwf : wfCheck cx.blocks 
   obtain ⟨_, _, _, _, _, b, _⟩ :=
     Props.C02.merge_applies_exactly_the_unmerged_ancestors_once cx hwf hknown r₂ c hc hck h₂
   rw [a t, b t, same t]
+
+/-- **Convergence, every pair of histories.** Two replicas start empty and are delivered stored commits — any commits,
+    in any orders, any number of times, in any grouping (a delivered commit brings its not yet merged ancestors with
+    it). If in the end they have merged the same commits of a document, they show the same values for it: delete
+    marker, every register, every counter. For every store passing `wfCheck3` (evaluated on the stores of the run). -/
+theorem same_commits_same_document (cx : Ctx) (hwf : wfCheck3 cx.blocks = true)
+    (hknown : ∀ l, (cx.blocks.get? l).isSome = true → cx.known l = true) (d : String)
+    (cs₁ cs₂ : List Block)
+    (h₁ : ∀ c ∈ cs₁, cx.blocks.get? c.id = some c ∧ c.kind = .comp)
+    (h₂ : ∀ c ∈ cs₂, cx.blocks.get? c.id = some c ∧ c.kind = .comp)
+    (same : ∀ t, Reach cx.blocks ((cs₁.foldl (mergeDoc cx) {}).doc d).heads t ↔
+      Reach cx.blocks ((cs₂.foldl (mergeDoc cx) {}).doc d).heads t) :
+    ((cs₁.foldl (mergeDoc cx) {}).doc d).vals = ((cs₂.foldl (mergeDoc cx) {}).doc d).vals := by
+  have swf := wfCheck3_sound cx.blocks hwf
+  have e : DocInv cx.blocks (({} : Replica).doc d) := docInv_empty cx.blocks
+  exact same_commits_same_values cx.blocks swf _ _
+    (deliveries_docInv cx swf hknown d cs₁ {} h₁ e) (deliveries_docInv cx swf hknown d cs₂ {} h₂ e) same
+
+/-- after every history of deliveries the values are accounted for: the deltas of the merged blocks, each once -/
+theorem values_are_the_merged_deltas_once (cx : Ctx) (hwf : wfCheck3 cx.blocks = true)
+    (hknown : ∀ l, (cx.blocks.get? l).isSome = true → cx.known l = true) (d : String) (cs : List Block)
+    (h : ∀ c ∈ cs, cx.blocks.get? c.id = some c ∧ c.kind = .comp) :
+    ∃ l : List Block, (l.map (·.id)).Nodup ∧
+      (∀ b, b ∈ l ↔ MergedIn cx.blocks ((cs.foldl (mergeDoc cx) {}).doc d) b) ∧
+      ((cs.foldl (mergeDoc cx) {}).doc d).vals = l.foldl applyDelta {} :=
+  (deliveries_docInv cx (wfCheck3_sound cx.blocks hwf) hknown d cs {} h (docInv_empty cx.blocks)).2.2.1
+
+/-- the counter store of C02 delivered in two different ways: head first (the ancestor comes with it) or one by one -/
+example :
+    let cx : Ctx := ⟨Props.C02.counterStore, fun _ => true⟩
+    let c1 : Block := ⟨1, .comp, "d", 1, [], [2], .comp false⟩
+    let c3 : Block := ⟨3, .comp, "d", 2, [1], [4], .comp false⟩
+    ((([c3].foldl (mergeDoc cx) {}).doc "d").vals.ctr "points") = some 11 ∧
+    ((([c1, c3, c1].foldl (mergeDoc cx) {}).doc "d").vals.ctr "points") = some 11 := by decide
 
 end Defra.Props.C01
